@@ -28,3 +28,10 @@ pub trait Exact: Copy + FastMulAdd + Mul<Self, Output = Self> + Div<Self, Output
             forall|a: Self, b: Self, c: Self| #[trigger] a.fma_spec(b, c).val() == a.val() * b.val() + c.val(),
     ;
 }
+
+// ideal real functions (uninterpreted; lemmas that need their laws state them as explicit hypotheses)
+pub uninterp spec fn s_sqrt(x: real) -> real;
+pub uninterp spec fn s_ln(x: real) -> real;
+pub uninterp spec fn s_log10(x: real) -> real;
+pub uninterp spec fn s_pow(x: real, y: real) -> real;
+pub uninterp spec fn s_exp(x: real) -> real;
